@@ -1,4 +1,4 @@
-/- Driver family `sel`: selectors on a population (C06, C07, …). -/
+/- Driver family `sel`: selectors on a population (C06, C07, C08, C13). -/
 import Uec.Model.Select
 import Driver.RandIO
 namespace Driver.SelFam
@@ -13,30 +13,101 @@ def parseInd (tok : String) : Option Ind :=
     pure { key, results }
   | _ => none
 
-def parseSel : List String → Option Sel
-  | ["best"] => some .best
-  | ["worst"] => some .worst
-  | ["random"] => some .random
-  | ["tournament", k] => k.toNat?.map .tournament
-  | _ => none
+mutual
+/-- selector terms in prefix notation:
+    `best | worst | random | tournament K | lexicase N | probe I | weighted W <s> | pair <a> <b> |
+     dyn N W1 <s1> … WN <sN> | ref <s> | erased <s>`; returns the term and the unread tokens -/
+def parseSel (fuel : Nat) (toks : List String) : Option (Sel × List String) :=
+  match fuel with
+  | 0 => none
+  | fuel + 1 =>
+    match toks with
+    | "best" :: r => some (.best, r)
+    | "worst" :: r => some (.worst, r)
+    | "random" :: r => some (.random, r)
+    | "tournament" :: k :: r => k.toNat?.map fun k => (.tournament k, r)
+    | "lexicase" :: n :: r => n.toNat?.map fun n => (.lexicase n, r)
+    | "probe" :: i :: r => i.toNat?.map fun i => (.probe i, r)
+    | "weighted" :: w :: r => do
+      let w ← w.toNat?
+      let (s, r) ← parseSel fuel r
+      pure (.weighted s w, r)
+    | "pair" :: r => do
+      let (a, r) ← parseSel fuel r
+      let (b, r) ← parseSel fuel r
+      pure (.pair a b, r)
+    | "dyn" :: n :: r => do
+      let n ← n.toNat?
+      let (l, r) ← parseItems fuel n r
+      pure (.dyn l, r)
+    | "ref" :: r => do
+      let (s, r) ← parseSel fuel r
+      pure (.byRef s, r)
+    | "erased" :: r => do
+      let (s, r) ← parseSel fuel r
+      pure (.erased s, r)
+    | _ => none
+def parseItems (fuel : Nat) (n : Nat) (toks : List String) : Option (List (Sel × Nat) × List String) :=
+  match fuel with
+  | 0 => none
+  | fuel + 1 =>
+    match n, toks with
+    | 0, r => some ([], r)
+    | n + 1, w :: r => do
+      let w ← w.toNat?
+      let (s, r) ← parseSel fuel r
+      let (l, r) ← parseItems fuel n r
+      pure ((s, w) :: l, r)
+    | _, _ => none
+end
 
 def showErr : SelErr → String
   | .emptyPopulation => "EmptyPopulation"
   | .tournamentSize k n => s!"TournamentSize({k},{n})"
+  | .lexEmpty => "LexEmpty"
+  | .missingTestCase t i => s!"MissingTestCase({t},{i})"
+  | .zeroWeight => "ZeroWeight"
+  | .selector e => s!"Selector({showErr e})"
+  | .a e => s!"A({showErr e})"
+  | .b e => s!"B({showErr e})"
+  | .dynWeight false => "DynZeroWeight"
+  | .dynWeight true => "DynOverflow"
+  | .dynOther e => s!"DynOther({showErr e})"
+  | .boxed e => s!"Boxed({showErr e})"
 
-/-- request: `sel <score|error> <selector tokens…> | <ind> <ind> …`; reply `ok <index>` / `err <e>` -/
+/-- request: `sel <score|error> <selector term> | <ind> <ind> …`;
+    reply `ok <index>` / `err <e>` / `builderr <a> <b>` (a `WeightedPair::new` overflowed) -/
 def handle (stdin stdout : IO.FS.Stream) (args : List String) : IO String := do
   match args with
   | pol :: rest =>
     let selToks := rest.takeWhile (· ≠ "|")
     let indToks := (rest.dropWhile (· ≠ "|")).drop 1
-    match parseSel selToks, indToks.mapM parseInd with
-    | some sel, some pop =>
-      let r ← runIO stdin stdout (sel.select (pol == "score") pop)
-      match r with
-      | .ok i => pure s!"ok {i}"
-      | .error e => pure s!"err {showErr e}"
+    match parseSel (selToks.length + 1) selToks, indToks.mapM parseInd with
+    | some (sel, []), some pop =>
+      match sel.build with
+      | .error (a, b) => pure s!"builderr {a} {b}"
+      | .ok _ =>
+        let r ← runIO stdin stdout (sel.select (pol == "score") pop)
+        match r with
+        | .ok i => pure s!"ok {i}"
+        | .error e => pure s!"err {showErr e}"
     | _, _ => pure "bad-request"
   | _ => pure "bad-request"
+
+/-- request: `lexspec <score|error> <n> <order, comma separated> | <ind> …`: the Spec of lexicase
+    filtering for that case order. Reply `surv <i,j,…> nondominated <i,j,…>`: the survivors and the
+    individuals not Pareto-dominated on the cases `0..n`. -/
+def handleSpec (args : List String) : String :=
+  match args with
+  | pol :: n :: order :: "|" :: indToks =>
+    match n.toNat?, (if order == "-" then some [] else parseNatList? order), indToks.mapM parseInd with
+    | some n, some order, some pop =>
+      let hb := pol == "score"
+      let all := List.range pop.length
+      let surv := survivors hb pop order all
+      let nd := all.filter fun i => !(all.any fun j => dominates hb pop n j i)
+      s!"surv {showNatList surv} nondominated {showNatList nd}"
+    | _, _, _ => "bad-request"
+  | _ => "bad-request"
 
 end Driver.SelFam
